@@ -36,7 +36,11 @@ Header(M) == CASE M.kind = "event"   -> [trigger_type |-> "event", event_type |-
                [] M.kind = "webhook" -> [trigger_type |-> "webhook", webhook_id |-> M.key]
 \* the filter sees the variables the function would get: the type header (trigger_type, event_type / topic /
 \* webhook_id) besides the message's own data
-Accepts(T, M)  == Matches(T, M) /\ EvalF(T.flt, M.d, Header(M))
+\* (an event's own data are variables too and win over the header where the names collide; MQTT and webhook
+\* payloads are nested below payload_obj / payload)
+Vars(M) == IF M.kind = "event" THEN [k \in DOMAIN Header(M) \cup DOMAIN M.d |-> IF k \in DOMAIN M.d THEN M.d[k] ELSE Header(M)[k]]
+           ELSE Header(M)
+Accepts(T, M)  == Matches(T, M) /\ EvalF(T.flt, M.d, Vars(M))
 
 Merged(args, kw) == [k \in DOMAIN args \cup DOMAIN kw |-> IF k \in DOMAIN kw THEN kw[k] ELSE args[k]]
 \* the keyword arguments of the run: type-specific header + the message's data + decorator kwargs
